@@ -735,6 +735,19 @@ impl FinishedSession {
             return Ok(Some(self));
         }
 
+        // The changeset must be checked against the current root before the rollback log is
+        // touched: a rejected changeset must not leave its delta behind.
+        {
+            let shared = nomt.shared.lock();
+            if shared.root != self.prev_root {
+                anyhow::bail!(
+                    "Changeset no longer valid (expected previous root {:?}, got {:?})",
+                    self.prev_root,
+                    shared.root
+                );
+            }
+        }
+
         if let Some(rollback_delta) = self.rollback_delta {
             // UNWRAP: if rollback_delta is `Some`, then rollback must be also `Some`.
             let rollback = nomt.store.rollback().unwrap();
@@ -745,14 +758,8 @@ impl FinishedSession {
         }
 
         {
+            // The write guard is held, so the root cannot have changed since the check above.
             let mut shared = nomt.shared.lock();
-            if shared.root != self.prev_root {
-                anyhow::bail!(
-                    "Changeset no longer valid (expected previous root {:?}, got {:?})",
-                    self.prev_root,
-                    shared.root
-                );
-            }
             shared.root = Root(self.merkle_output.root);
             shared.last_commit_marker = None;
         }
